@@ -92,12 +92,16 @@ def search(job):
                  "http://ex.org/dir/sub.json": {"type": "string"},
                  "http://ex.org/item.json": {"type": "boolean"},
                  # a key spelled the way ids usually are, with an empty fragment
-                 "http://ex.org/hash.json#": {"definitions": {"t": {"type": "integer"}}}}
+                 "http://ex.org/hash.json#": {"definitions": {"t": {"type": "integer"}}},
+                 # paths are case-sensitive: two different documents
+                 "http://ex.org/Case.json": {"type": "integer"}, "http://ex.org/case.json": {"type": "string"}}
         meta_id = cls.META_SCHEMA.get(idk, "")
         store_cases = [
             # a caller-supplied document registered under a key with a trailing '#' is served from the store
             ({"properties": {"k": {"$ref": "http://ex.org/hash.json#/definitions/t"}}}, {"properties": {"k": {"type": "integer"}}}),
             ({"properties": {"k": {"$ref": "http://ex.org/hash.json#/definitions/t"}}, idk: "http://ex.org/root2.json"}, {"properties": {"k": {"type": "integer"}}}),
+            ({"properties": {"k": {"$ref": "http://ex.org/Case.json"}}}, {"properties": {"k": {"type": "integer"}}}),
+            ({"properties": {"k": {"$ref": "http://ex.org/case.json"}}}, {"properties": {"k": {"type": "string"}}}),
             # the schema being validated wins over any document already known under its own URI
             ({idk: "http://ex.org/other.json", "definitions": {"u": {"type": "integer"}}, "properties": {"k": {"$ref": "#/definitions/u"}}}, {"properties": {"k": {"type": "integer"}}}),
         ] + ([({idk: meta_id, "definitions": {"zz": {"type": "integer"}}, "properties": {"k": {"$ref": "#/definitions/zz"}}}, {"properties": {"k": {"type": "integer"}}})] if meta_id else []) + [
